@@ -290,12 +290,13 @@ func c05Open(s *srv.Server, name string, flv bool, r *rand.Rand) (*c05Session, e
 func c05OpenEx(s *srv.Server, name string, flv bool, r *rand.Rand, videoOnly bool) (*c05Session, error) {
 	ss := &c05Session{name: name, ts: 1000}
 	var err error
+	from := s.Notify.Len()
 	if flv {
 		ss.witness, err = srv.StartHttpSub(s.HttpAddr(), "/live/"+name+".flv", "flv", 5*time.Second)
 		if err != nil {
 			return nil, fmt.Errorf("witness: %w", err)
 		}
-		if _, ok := s.Notify.WaitSession(5*time.Second, "sub_start", ss.witness.Conn.LocalAddr().String()); !ok {
+		if _, ok := s.Notify.WaitSessionFrom(5*time.Second, from, "sub_start", ss.witness.Conn.LocalAddr().String()); !ok {
 			return nil, fmt.Errorf("witness not admitted")
 		}
 	}
@@ -303,7 +304,7 @@ func c05OpenEx(s *srv.Server, name string, flv bool, r *rand.Rand, videoOnly boo
 	if err != nil {
 		return nil, fmt.Errorf("publisher: %w", err)
 	}
-	if _, ok := s.Notify.WaitSession(5*time.Second, "pub_start", ss.pub.RC.Conn.LocalAddr().String()); !ok {
+	if _, ok := s.Notify.WaitSessionFrom(5*time.Second, from, "pub_start", ss.pub.RC.Conn.LocalAddr().String()); !ok {
 		return nil, fmt.Errorf("publisher not accepted")
 	}
 	ss.pub.RC.SetChunkSize(4096)
